@@ -260,6 +260,7 @@ def run(case):
         case.check(tuple(loader.construct_dask().shape) == a0.shape, "construct_dask declares a wrong shape")
         # an output shape given at the call wins over the loader's default
         shape2 = tuple(max(2, s_ + int(d_)) for s_, d_ in zip(shape, rng.integers(-2, 3, 3)))
+        want2 = None
         if shape2 != shape:
             try:
                 want2 = np.asarray(SubtomogramLoader(img, mole, order=order, scale=scale, output_shape=shape2,
@@ -274,6 +275,32 @@ def run(case):
                     float(np.abs(got2 - want2).max()) <= TOLERANCES["entry_points_rel"] * amp
                 case.check(ok2, "an output_shape given at the call does not override the loader's default shape", None,
                            default=shape, requested=shape2, got=got2.shape)
+        # reshape(): the default shape taken from a template, a mask or given directly - the reshaped loader samples
+        # like a loader built with that shape, and contradictory hints are refused
+        if shape2 != shape and want2 is not None:
+            rng_r = gen.rng_for(p["iseed"], "c02-reshape")
+            how = int(rng_r.integers(0, 3))
+            bare = SubtomogramLoader(img, mole, order=order, scale=scale, corner_safe=p["corner_safe"]) \
+                if rng_r.random() < 0.5 else loader
+            if how == 0:
+                rs = bare.reshape(shape=shape2)
+            elif how == 1:
+                rs = bare.reshape(template=np.zeros(shape2, np.float32))
+            else:
+                rs = bare.reshape(mask=np.ones(shape2, np.float32), shape=shape2)
+            got_r = np.asarray(rs.asnumpy())
+            case.count("reshaped_loaders")
+            case.check(tuple(rs.output_shape) == shape2 and got_r.shape == want2.shape and
+                       float(np.abs(got_r - want2).max()) <= TOLERANCES["entry_points_rel"] * amp,
+                       "a reshaped loader does not sample like a loader built with that shape", None, how=how,
+                       requested=shape2, got=got_r.shape)
+            case.check(tuple(loader.output_shape) == shape, "reshape changed the source loader", None)
+            try:
+                bare.reshape(template=np.zeros(shape2, np.float32), shape=shape)
+                refused = False
+            except ValueError:
+                refused = True
+            case.check(refused, "reshape accepted a template and a shape that contradict each other", None)
         # the loader follows its molecules: after an in-place edit of the Molecules object the very same loader
         # samples the new poses (compared with a fresh loader built at the new poses)
         delta = rng.uniform(-1.0, 1.0, size=(n, 3)) * scale
